@@ -29,16 +29,22 @@ def beNat (b : Bytes) : Nat := b.foldl (fun a x => a * 256 + x.toNat) 0
 /-- two's complement, `k` bytes, big endian -/
 def tcEnc (k : Nat) (n : Int) : Bytes := beBytes k (n % (256:Int)^k).toNat
 
-/-- value of a big-endian two's complement byte string (empty = 0) -/
+/-- value of a big-endian two's complement byte string (empty = 0): the unsigned value, minus `256^len` when the
+    sign bit is set (i.e. when the unsigned value is at least half the range) -/
 def tcDec (b : Bytes) : Int :=
-  match b with
-  | [] => 0
-  | x :: _ => if x.toNat ≥ 128 then (beNat b : Int) - (256:Int)^b.length else (beNat b : Int)
+  if 2 * beNat b ≥ 256 ^ b.length then (beNat b : Int) - (256:Int)^b.length else (beNat b : Int)
 
-/-- `n` is representable in `k` bytes two's complement -/
-def fitsS (k : Nat) (n : Int) : Bool := decide (-((2:Int)^(8*k-1)) ≤ n ∧ n < (2:Int)^(8*k-1))
+/-- `n` is representable in `k` bytes two's complement: −256^k/2 ≤ n < 256^k/2 -/
+def leB (a b : Int) : Bool := decide (a ≤ b)
+def ltB (a b : Int) : Bool := decide (a < b)
+theorem leB_iff {a b : Int} : leB a b = true ↔ a ≤ b := by simp [leB]
+theorem ltB_iff {a b : Int} : ltB a b = true ↔ a < b := by simp [ltB]
+theorem leB_false {a b : Int} : leB a b = false ↔ ¬ a ≤ b := by simp [leB]
+theorem ltB_false {a b : Int} : ltB a b = false ↔ ¬ a < b := by simp [ltB]
 
-def fitsU (k : Nat) (n : Int) : Bool := decide (0 ≤ n ∧ n < (2:Int)^(8*k))
+def fitsS (k : Nat) (n : Int) : Bool := leB (-((256:Int)^k)) (2 * n) && ltB (2 * n) ((256:Int)^k)
+
+def fitsU (k : Nat) (n : Int) : Bool := leB 0 n && ltB n ((256:Int)^k)
 
 /-- varint: the SHORTEST two's complement representation (Java `BigInteger.toByteArray`):
     one byte if the number fits a signed byte, otherwise the varint of `n >> 8` followed by the low byte. -/
